@@ -96,6 +96,78 @@ impl<'a, T> Either<VEnum<'a, T>, VEnum<'a, T>> {
 }
 pub assume_specification<T> [ <[T]>::reverse ] (s: &mut [T]) ensures final(s)@ == old(s)@.reverse();
 
+// ---- whole-matrix iteration (CSC order) and dense conversion, for collect_diag / solve_triangular_vec ----
+/// ents lists the stored entries (i, j, value) of m in column-major order: sorted by (j, i), positions distinct and in range,
+/// every non-zero entry present (explicit zeros allowed)
+pub open spec fn mat_entries(ents: Seq<(int, int, int)>, m: int) -> bool {
+    &&& forall|k: int| 0 <= k < ents.len() ==> 0 <= (#[trigger] ents[k]).0 < mat_n(m) && 0 <= ents[k].1 < mat_n(m) && ents[k].2 == mat_at(m, ents[k].0, ents[k].1)
+    &&& forall|k: int, l: int| 0 <= k < l < ents.len() ==> ((#[trigger] ents[k]).1 < (#[trigger] ents[l]).1 || (ents[k].1 == ents[l].1 && ents[k].0 < ents[l].0))
+    &&& forall|i: int, j: int| 0 <= i < mat_n(m) && 0 <= j < mat_n(m) && #[trigger] mat_at(m, i, j) != r0() ==> exists|k: int| 0 <= k < ents.len() && (#[trigger] ents[k]).0 == i && ents[k].1 == j
+}
+pub struct MIter<'a> { pub src: &'a SpMat, pub es: Ghost<Seq<(int, int, int)>>, pub pos: Ghost<int> }
+impl SpMat {
+    #[verifier::external_body] pub fn nrows(&self) -> (r: usize) ensures r == mat_n(self.m@) { unimplemented!() }
+    #[verifier::external_body] pub fn iter(&self) -> (r: MIter<'_>) ensures r.src == self, r.pos@ == 0, mat_entries(r.es@, self.m@) { unimplemented!() }
+    /// ASSUMED (iter_nz().all(..)): square, and zero on the other side of the diagonal
+    #[verifier::external_body] pub fn is_triang(&self, t: TriangularType) -> (r: bool) ensures r == tri(self.m@, is_up(t)) { unimplemented!() }
+}
+impl<'a> MIter<'a> {
+    pub fn into_iter(self) -> (r: Self) ensures r == self { self }
+    #[verifier::external_body] pub fn next(&mut self) -> (r: Option<(usize, usize, &'a ER)>)
+        requires 0 <= old(self).pos@ <= old(self).es@.len()
+        ensures final(self).es@ == old(self).es@, final(self).src == old(self).src,
+            old(self).pos@ < old(self).es@.len() ==> (final(self).pos@ == old(self).pos@ + 1 && r.is_some()
+                && r.unwrap().0 as int == old(self).es@[old(self).pos@].0 && r.unwrap().1 as int == old(self).es@[old(self).pos@].1 && r.unwrap().2.v() == old(self).es@[old(self).pos@].2),
+            old(self).pos@ >= old(self).es@.len() ==> (final(self).pos@ == old(self).pos@ && r.is_none()),
+    { unimplemented!() }
+}
+impl SpVec {
+    /// the vector as a function of the index
+    pub uninterp spec fn val(&self, i: int) -> int;
+    #[verifier::external_body] pub fn dim(&self) -> (r: usize) ensures r == self.dim@ { unimplemented!() }
+    #[verifier::external_body] pub fn to_dense(&self) -> (r: Vec<ER>) ensures r@.len() == self.dim@, forall|i: int| 0 <= i < r@.len() ==> (#[trigger] r@[i]).v() == self.val(i) { unimplemented!() }
+}
+pub open spec fn has_diag(ents: Seq<(int, int, int)>, p: int, j: int) -> bool { exists|k: int| 0 <= k < p && (#[trigger] ents[k]).0 == j && ents[k].1 == j }
+/// number of diagonal entries among the first n stored entries
+pub open spec fn ndiag(ents: Seq<(int, int, int)>, n: int) -> int decreases n { if n <= 0 { 0 } else { ndiag(ents, n - 1) + (if ents[n - 1].0 == ents[n - 1].1 { 1int } else { 0int }) } }
+/// in column-major order with every diagonal entry stored, the k-th diagonal entry met is the one of column k
+pub proof fn lemma_diag_order(ents: Seq<(int, int, int)>, m: int, p: int)
+    requires mat_entries(ents, m), 0 <= p <= ents.len(), 0 <= mat_n(m), forall|j: int| 0 <= j < mat_n(m) ==> #[trigger] mat_at(m, j, j) != r0(),
+    ensures 0 <= ndiag(ents, p) <= mat_n(m), p < ents.len() && ents[p].0 == ents[p].1 ==> ents[p].1 == ndiag(ents, p),
+        p == ents.len() ==> ndiag(ents, p) == mat_n(m),
+        // every column below ndiag has had its diagonal entry, none at or above
+        forall|k: int| 0 <= k < p && (#[trigger] ents[k]).0 == ents[k].1 ==> ents[k].1 < ndiag(ents, p),
+        forall|j: int| 0 <= j < ndiag(ents, p) ==> #[trigger] has_diag(ents, p, j),
+    decreases p
+{
+    let c = ndiag(ents, p);
+    if p > 0 {
+        lemma_diag_order(ents, m, p - 1);
+        let c0 = ndiag(ents, p - 1);
+        assert forall|jj: int| 0 <= jj < c implies #[trigger] has_diag(ents, p, jj) by {
+            if jj < c0 { assert(has_diag(ents, p - 1, jj)); let k = choose|k: int| 0 <= k < p - 1 && (#[trigger] ents[k]).0 == jj && ents[k].1 == jj; }
+            else { assert(ents[p - 1].0 == jj && ents[p - 1].1 == jj); }
+        }
+        assert forall|k: int| 0 <= k < p && (#[trigger] ents[k]).0 == ents[k].1 implies ents[k].1 < c by { }
+        assert(0 <= ents[p - 1].1 < mat_n(m));
+    }
+    assert(0 <= c <= mat_n(m));
+    // the next diagonal entry, if any, is the one of column c; and at the end all columns are done
+    if c < mat_n(m) {
+        assert(mat_at(m, c, c) != r0());
+        let kc = choose|k: int| 0 <= k < ents.len() && (#[trigger] ents[k]).0 == c && ents[k].1 == c;
+        if kc < p { assert(ents[kc].1 < c); }
+        if p < ents.len() && ents[p].0 == ents[p].1 {
+            let j = ents[p].1;
+            if j < c { assert(has_diag(ents, p, j)); let k = choose|k: int| 0 <= k < p && (#[trigger] ents[k]).0 == j && ents[k].1 == j; assert(ents[k].1 == ents[p].1 && ents[k].0 == ents[p].0); }
+            if j > c { if kc > p { assert(ents[p].1 <= ents[kc].1); } }
+        }
+    } else if p < ents.len() && ents[p].0 == ents[p].1 {
+        let j = ents[p].1;
+        assert(has_diag(ents, p, j)); let k = choose|k: int| 0 <= k < p && (#[trigger] ents[k]).0 == j && ents[k].1 == j; assert(ents[k].1 == ents[p].1 && ents[k].0 == ents[p].0);
+    }
+}
+
 // ---------------------------------------------------------------- specification
 pub open spec fn is_up(t: TriangularType) -> bool { t == TriangularType::Upper }
 /// row i is finished before column j is processed (Upper: i > j, Lower: i < j): there the matrix is zero
@@ -254,6 +326,44 @@ pub fn _solve_triangular(t: TriangularType, a: &SpMat, diag: &[&ER], b: &mut [ER
 //@|         let e = choose|e: int| 0 <= e < entries0.len() && (#[trigger] entries0[e]).0 == j2;
 //@|         let k3 = if up { es.len() - 1 - e } else { e }; assert(es[k3].0 == j2);
 //@|     }
+//@| }
+/// the diagonal of a (triangular, unit-diagonal) matrix, read off the column-major entry stream
+pub fn collect_diag<'a>(a: &'a SpMat) -> (diag: Vec<&'a ER>)
+    requires 0 <= mat_n(a.m@), forall|j: int| 0 <= j < mat_n(a.m@) ==> #[trigger] mat_at(a.m@, j, j) != r0(),
+    ensures diag@.len() == mat_n(a.m@), forall|j: int| 0 <= j < diag@.len() ==> (#[trigger] diag@[j]).v() == mat_at(a.m@, j, j),
+//@body fn/collect_diag for_iter=1 loops=1
+//@+ sig
+//@| fn collect_diag<'a, R>(a: &'a SpMat<R>) -> Vec<&'a R> where R: Ring, for<'x> &'x R: RingOps<R>
+//@+ loop 0 header
+//@| a.iter().filter_map(|(i, j, a)|
+//@+ loop 0 elem
+//@| &'a ER
+//@+ loop 0
+//@| invariant __it0.src == a, mat_entries(__it0.es@, a.m@), 0 <= __it0.pos@ <= __it0.es@.len(), 0 <= mat_n(a.m@), forall|j: int| 0 <= j < mat_n(a.m@) ==> #[trigger] mat_at(a.m@, j, j) != r0(),
+//@|     __out0@.len() == ndiag(__it0.es@, __it0.pos@), forall|j: int| 0 <= j < __out0@.len() ==> (#[trigger] __out0@[j]).v() == mat_at(a.m@, j, j),
+//@| ensures __it0.pos@ == __it0.es@.len(),
+//@| decreases __it0.es@.len() - __it0.pos@,
+//@+ loop 0 end
+//@| lemma_diag_order(__it0.es@, __it0.src.m@, __it0.pos@ - 1);
+//@+ loop 0 after
+//@| lemma_diag_order(__it0.es@, a.m@, __it0.pos@);
+
+/// one right-hand side, public entry point: A x = b
+pub fn solve_triangular_vec(t: TriangularType, a: &SpMat, b: &SpVec) -> (res: SpVec)
+    requires 0 <= mat_n(a.m@) <= usize::MAX, forall|j: int| 0 <= j < mat_n(a.m@) ==> is_unit(#[trigger] mat_at(a.m@, j, j)),
+        tri(a.m@, is_up(t)),        // checked by the code only in debug builds
+//@if B
+        b.dim@ == mat_n(a.m@),
+//@endif
+    ensures b.dim@ == mat_n(a.m@),
+        exists|x: Map<int, int>| #![trigger represents(res.es@, x)] represents(res.es@, x) && res.dim@ == mat_n(a.m@)
+            && forall|i: int| 0 <= i < mat_n(a.m@) ==> b.val(i) == #[trigger] psum(a.m@, is_up(t), x, i, mat_n(a.m@)),
+//@body fn/solve_triangular_vec
+//@+ sig
+//@| fn solve_triangular_vec<R>(t: TriangularType, a: &SpMat<R>, b: &SpVec<R>) -> SpVec<R> where R: Ring, for<'x> &'x R: RingOps<R>
+//@+ pre
+//@| assert forall|j: int| 0 <= j < mat_n(a.m@) implies #[trigger] mat_at(a.m@, j, j) != r0() by {
+//@|     let u = mat_at(a.m@, j, j); if u == r0() { let w = choose|w: int| #[trigger] rmul(u, w) == r1(); id_mul_zero(w); ax_nontrivial(); }
 //@| }
 } // verus!
 fn main() {}
